@@ -7,6 +7,7 @@ import (
 	"strings"
 
 	"github.com/semihalev/sdns/internal/verif/vlib"
+	"github.com/semihalev/sdns/middleware/cache"
 )
 
 // address pools: neighbours around /20, /24, /25 (v4) and /48, /56, /64 (v6)
@@ -235,7 +236,10 @@ func genOther(r *vlib.R) string {
 	case 5:
 		return "O11.x"
 	}
-	return fmt.Sprintf("O%d.%s", vlib.Pick(r, []int{65001, 65534, 15, 9, 14}), vlib.Hex(r.Bytes(1+r.Intn(6))))
+	if r.Chance(1, 5) {
+		return "O15." + vlib.Hex(r.Bytes(2))
+	}
+	return fmt.Sprintf("O%d.%s", vlib.Pick(r, []int{65001, 65534, 9, 14}), vlib.Hex(r.Bytes(1+r.Intn(6))))
 }
 
 // genOpts: a client's OPT; ecsBase fixes the claimed subnet when not nil.
@@ -482,6 +486,23 @@ func genPipeCase(r *vlib.R, emit func(string)) int {
 		for j := 0; j < 3+r.Intn(5); j++ {
 			q(qid)
 		}
+		if r.Chance(1, 3) {
+			// forged key collision: re-file a scoped entry the implementation
+			// just stored (observed, then written into the op line) under the
+			// key of the sibling block / the parent block / the shared key
+			if from, to, cd, ok := pickForge(r, qid); ok {
+				emit(fmt.Sprintf("pipe forge %d %s %s %s", qid, vlib.B(cd), from, to))
+				count++
+				for j := 0; j < 3; j++ {
+					q(qid)
+				}
+			}
+		}
+	}
+	for i := 0; i < r.Intn(3); i++ {
+		s := vlib.Pick(r, sites)
+		emit(fmt.Sprintf("pipe badvers %s %s %d %s", s.client, vlib.Pick(r, []string{"udp", "tcp"}), vlib.Pick(r, []int{1, 2, 255}), genOpts(r, spec, 90, s.ecs, false)))
+		count++
 	}
 	if pf > 0 {
 		emit("pipe age 9 10")
@@ -510,6 +531,45 @@ func genPipeCase(r *vlib.R, emit func(string)) int {
 		count++
 	}
 	return count
+}
+
+// pickForge looks at what the implementation stored for qid and proposes a collision.
+func pickForge(r *vlib.R, qid int) (from, to string, cd, ok bool) {
+	if pipe == nil {
+		return
+	}
+	name := fmt.Sprintf("q%d.c19.test.", qid)
+	for _, e := range cache.VerifC19Entries(pipe.ca) {
+		if e.Q.Name != name {
+			continue
+		}
+		if !e.Scope.IsValid() {
+			if r.Chance(1, 4) {
+				return "shared", "4:0a010200/24", e.CD, true
+			}
+			continue
+		}
+		fam := "6"
+		if e.Scope.Addr().Is4() {
+			fam = "4"
+		}
+		b, bits := e.Scope.Addr().AsSlice(), e.Scope.Bits()
+		from = fmt.Sprintf("%s:%s/%d", fam, vlib.Hex(b), bits)
+		switch r.Intn(4) {
+		case 0:
+			to = "shared"
+		case 1:
+			if bits > 1 {
+				to = fmt.Sprintf("%s:%s/%d", fam, vlib.Hex(maskBytes(b, bits-1)), bits-1)
+			} else {
+				to = "shared"
+			}
+		default:
+			to = fmt.Sprintf("%s:%s/%d", fam, vlib.Hex(flipBit(b, bits-1)), bits)
+		}
+		return from, to, e.CD, true
+	}
+	return
 }
 
 func hostOnly(b []byte, n int) []byte {
